@@ -37,3 +37,5 @@ mod c19;
 
 #[cfg(all(kani, feature = "cal"))]
 mod cal;
+#[cfg(all(kani, feature = "iox2"))]
+mod c19svc;
